@@ -1,30 +1,48 @@
 (* Property C12 — statements only.  Each theorem is closed by [exact] of a lemma proved in the
    C12/ files; Print Assumptions is evaluated by ./check on every run.
-   round32 / widen32 (IEEE binary64 -> binary32 -> binary64 on bit patterns) are universally
-   quantified: the theorems hold for whatever the platform's conversion is. *)
-From Coq Require Import List ZArith.
-From TskVerif Require Import Base.Common C12.Model C12.BytesProofs C12.RoundTripProofs C12.ExhaustProofs.
+
+   Reading guide.  [encode]/[decode]/[valid]/[validate_and_encode]/[order_by_index]/[modify]/
+   [construct]/[json_decode] are the Gallina models (C12/Model.v) of StructCodec.make_encode /
+   make_decode, the jsonschema validation of the modified schema, MetadataSchema.
+   validate_and_encode_row, StructCodec.order_by_index / modify_schema, MetadataSchema() and
+   JSONCodec.decode.  [norm] is the specification of what must come back (defaults filled,
+   binary32 rounding, fixed-width truncation / padding, NUL termination).  round32 / widen32
+   (IEEE binary64 <-> binary32 on bit patterns) and Python's json are universally quantified:
+   the theorems hold for whatever the platform's conversions are.  [DFuel] is the out-of-fuel
+   outcome of the exhaust-buffer loop; theorems either exclude it or (findings) exhibit it. *)
+From Coq Require Import List ZArith Permutation Sorting.
+From TskVerif Require Import Base.Common Gen.Generated C12.Model C12.BytesProofs C12.RoundTripProofs
+  C12.LayoutProofs C12.OrderProofs C12.ExhaustProofs C12.ValidProofs C12.JsonProofs.
 Import ListNotations.
 Open Scope Z_scope.
 
-(* (d) struct's little-endian integers: every width, signed and unsigned, in range *)
+(* ---- (d) struct's little-endian integers: every width, signed and unsigned ---- *)
 Theorem le_int_roundtrip : forall f z, in_range f z = true ->
   signed_of f (le_val (le_bytes (isize f) (z mod imod f))) = z /\
   length (le_bytes (isize f) (z mod imod f)) = isize f.
 Proof. exact int_pack_unpack. Qed.
 
+Theorem le_bytes_inverse : forall l, Forall (fun b => 0 <= b < 256) l ->
+  le_bytes (length l) (le_val l) = l.
+Proof. exact le_bytes_le_val. Qed.
+
+Theorem be_int_roundtrip : forall n z, 0 <= z < 256 ^ Z.of_nat n ->
+  be_val (be_bytes n z) = z /\ length (be_bytes n z) = n.
+Proof. intros n z H. split; [exact (be_val_be_bytes n z H) | exact (be_bytes_length n z)]. Qed.
+
 Theorem int_out_of_range_is_rejected : forall round32 f z,
   in_range f z = false -> pack_num round32 (BInt f) (VInt z) = EErr EStruct.
 Proof. exact int_out_of_range_rejected. Qed.
 
-(* (a) whatever encodes under an exhaust-free schema decodes to its normal form (defaults
-   filled, binary32 rounding, fixed-width truncation, NUL termination) and leaves the
-   following bytes alone *)
+(* ---- (a) round trip ---- *)
+(* whatever encodes under an exhaust-free schema decodes to its normal form and leaves the
+   following bytes alone (so decode consumes exactly |encode| bytes) *)
 Theorem struct_roundtrip : forall round32 widen32 s, rt_ok s = true ->
   forall fuel v bs rest, encode round32 s v = EOk bs ->
   decode widen32 fuel s (bs ++ rest) = DOk (norm round32 widen32 s v) rest.
 Proof. exact struct_roundtrip_gen. Qed.
 
+(* validate_and_encode_row then decode_row, top level "object" or ["object","null"] *)
 Theorem struct_roundtrip_row : forall round32 widen32 t v bs fuel,
   rt_ok (t_schema t) = true ->
   validate_and_encode round32 t v = EOk bs ->
@@ -32,7 +50,60 @@ Theorem struct_roundtrip_row : forall round32 widen32 t v bs fuel,
   decode_top widen32 fuel t bs = DOk (norm_top round32 widen32 t v) [].
 Proof. exact struct_roundtrip_top. Qed.
 
-(* findings: the property is false for the code that exists *)
+(* noLengthEncodingExhaustBuffer used as documented: last encoded property, items >= 1 byte *)
+Theorem exhaust_tail_roundtrip : forall round32 widen32 req ps k m it v bs fuel,
+  forallb (fun p : prop => rt_ok (snd p)) ps = true ->
+  rt_ok it = true -> (0 < min_width it)%nat ->
+  encode round32 (SObj req (ps ++ [(k, m, SArr AExhaust it)])) v = EOk bs ->
+  (length bs < fuel)%nat ->
+  decode widen32 fuel (SObj req (ps ++ [(k, m, SArr AExhaust it)])) bs =
+    DOk (norm round32 widen32 (SObj req (ps ++ [(k, m, SArr AExhaust it)])) v) [].
+Proof. exact ExhaustProofs.exhaust_tail_roundtrip. Qed.
+
+(* ---- (b) layout ---- *)
+Theorem struct_layout : forall round32 req ps kv bs,
+  encode round32 (order_by_index (SObj req ps)) (VObj kv) = EOk bs ->
+  exists ps' parts,
+    order_by_index (SObj req ps) = SObj req ps' /\
+    Permutation (map fst ps') (map fst ps) /\
+    StronglySorted L ps' /\
+    Forall2 (fun (p : prop) part =>
+               exists x, field_src kv p = Some x /\ encode round32 (snd p) x = EOk part) ps' parts /\
+    bs = concat parts.
+Proof. exact ordered_object_layout. Qed.
+
+Theorem order_by_index_sorts : forall ps,
+  Permutation (sort_props ps) ps /\ StronglySorted L (sort_props ps).
+Proof. exact sort_props_spec. Qed.
+
+Theorem struct_size : forall round32 s n v bs,
+  fixed_size s = Some n -> encode round32 s v = EOk bs -> Z.of_nat (length bs) = n.
+Proof. exact fixed_size_ok. Qed.
+
+(* the model's formats / sizes / numpy dtypes are the ones metadata.py has *now* *)
+Theorem formats_match_source :
+  map bchar all_single = c12_single_formats /\
+  map bchar [BStr 1; BPas 1; BPad 1] = c12_counted_formats /\
+  map ichar [IB; IH; II; IL; IQ] = c12_array_length_formats /\
+  ichar IL = c12_array_length_default /\
+  map (fun f => (bchar f, bsize f)) (all_single ++ [BStr 1; BPas 1; BPad 1]) = c12_struct_sizes.
+Proof. exact LayoutProofs.formats_match_source. Qed.
+
+Theorem numpy_dtype_sizes_agree :
+  forallb dtype_ok c12_format_to_dtype = true /\
+  map fst c12_format_to_dtype = map bchar (BBool :: map BInt all_ifmt ++ [BFloat; BDouble; BChar]).
+Proof. exact format_to_dtype_agrees. Qed.
+
+(* ---- (c) termination / consumption ---- *)
+Theorem decode_consumes : forall widen32 s fuel buf v rest,
+  decode widen32 fuel s buf = DOk v rest -> (length rest + min_width s <= length buf)%nat.
+Proof. exact ExhaustProofs.decode_consumes. Qed.
+
+Theorem decode_terminates : forall widen32 s, zw_free s = true ->
+  forall fuel buf, (length buf < fuel)%nat -> decode widen32 fuel s buf <> DFuel.
+Proof. exact ExhaustProofs.decode_terminates. Qed.
+
+(* ---- findings: the property is false for the code that exists ---- *)
 Theorem exhaust_zero_width_diverges_refuted : exists (t : top) (v : value),
   validate_and_encode round32_impl t v = EOk [] /\
   forall fuel buf, decode_top widen32_impl fuel t buf = DFuel.
@@ -49,3 +120,54 @@ Theorem object_or_null_empty_refuted : exists (t : top) (v : value),
   decode_top widen32_impl 5 t [] = DOk VNull [] /\
   norm_top round32_impl widen32_impl t v <> VNull.
 Proof. exact objnull_empty_refuted. Qed.
+
+Theorem nested_validators_skipped_refuted :
+  (exists (t : top) (v : value),
+     construct t = CAccept /\ valid_top (modify_top t) v = true /\
+     validate_and_encode round32_impl (modify_top t) v = EErr EKey) /\
+  (exists t : top, construct t = CKeyErr) /\
+  (exists t : top, construct t = CAccept /\
+     exists p q, t_schema t = SObj None [p] /\ snd p = SObj None [q] /\ neg_length (snd q) = true).
+Proof. exact ValidProofs.nested_validators_skipped_refuted. Qed.
+
+(* ---- (e) rejection ---- *)
+Theorem invalid_rejected : forall round32 t v,
+  valid_top t v = false -> validate_and_encode round32 t v = EErr EValidation.
+Proof. exact ValidProofs.invalid_rejected. Qed.
+
+Theorem missing_required_is_invalid : forall req ps kv k,
+  In k req -> lookup k kv = None -> valid (SObj (Some req) ps) (VObj kv) = false.
+Proof. exact missing_required_invalid. Qed.
+
+Theorem additional_property_is_invalid : forall req ps kv k x,
+  In (k, x) kv -> key_in k (map pkey ps) = false -> valid (SObj req ps) (VObj kv) = false.
+Proof. exact additional_property_invalid. Qed.
+
+Theorem invalid_field_is_invalid : forall req ps kv (p : prop) x,
+  In p ps -> lookup (pkey p) kv = Some x -> valid (snd p) x = false ->
+  valid (SObj req ps) (VObj kv) = false.
+Proof. exact field_invalid. Qed.
+
+Theorem invalid_element_is_invalid : forall m it l x,
+  In x l -> valid it x = false -> valid (SArr m it) (VArr l) = false.
+Proof. exact element_invalid. Qed.
+
+Theorem schema_top_level_rules : forall t req ps,
+  construct t = CAccept -> t_schema t = SObj (Some req) ps ->
+  forall p, In p ps ->
+    leaf_needs_format (snd p) = false /\ neg_length (snd p) = false /\
+    (key_in (pkey p) req = true \/ p_default (snd (fst p)) <> None).
+Proof. exact construct_accept_top_rules. Qed.
+
+(* ---- JSON codec ---- *)
+Theorem json_roundtrip_defaults : forall (json_dumps : value -> list Z) (json_loads : list Z -> option value),
+  (forall v, json_loads (json_dumps v) = Some v) -> (forall v, json_dumps v <> []) ->
+  forall defaults v,
+  json_decode json_loads defaults (json_dumps v) =
+  Some (match v with VObj kv => VObj (json_fill defaults kv) | _ => v end).
+Proof. exact JsonProofs.json_roundtrip_defaults. Qed.
+
+Theorem json_defaults_union : forall defaults kv k,
+  lookup k (json_fill defaults kv) =
+  match lookup k kv with Some x => Some x | None => lookup k defaults end.
+Proof. exact json_fill_lookup. Qed.
